@@ -63,7 +63,9 @@ type gen struct {
 	inBlock  int             // nesting depth of if/for blocks
 	loops    int
 	called   map[*Func]bool
-	constRet bool // every return of the current function returns literals
+	mustMix  []string        // variables the next returns should depend on
+	frozen   map[string]bool // variables that must not be assigned right now
+	constRet bool            // every return of the current function returns literals
 }
 
 const costBudget = 60000
@@ -881,7 +883,7 @@ func (g *gen) declare(name string, t *Ty, assignable bool) {
 func (g *gen) lvalues() []*LVal {
 	var out []*LVal
 	for _, v := range g.vars {
-		if !v.assignable || v.loop {
+		if !v.assignable || v.loop || g.frozen[v.name] {
 			continue
 		}
 		out = append(out, &LVal{X: v.name, T: v.t})
@@ -1078,6 +1080,185 @@ func (g *gen) stmtAssign() []*Stmt {
 		g.tag("assign_constant")
 	}
 	return []*Stmt{{K: "assign", LVs: []*LVal{lv}, E: e}}
+}
+
+// simpleCond: a computed condition over one or two variables (`x > y`,
+// `x <= 3`), different from the textual forms in avoid.
+func (g *gen) simpleCond(avoid map[string]bool) *Expr {
+	nv := g.numVars()
+	for try := 0; try < 8; try++ {
+		var c *Expr
+		if len(nv) == 0 {
+			c = g.boolean(1, false)
+		} else {
+			v := nv[g.r.Intn(len(nv))]
+			op := []string{"lt", "le", "gt", "ge", "ne", "lt", "gt", "eq"}[g.r.Intn(8)]
+			a := &Expr{K: "var", X: v.name, T: v.t}
+			var b *Expr
+			if g.pct(45) {
+				var same []gvar
+				for _, w := range nv {
+					if w.name != v.name && w.t.Eq(v.t) {
+						same = append(same, w)
+					}
+				}
+				if len(same) > 0 {
+					w := same[g.r.Intn(len(same))]
+					b = &Expr{K: "var", X: w.name, T: w.t}
+				}
+			}
+			if b == nil {
+				b = g.lit(v.t, op, false)
+			}
+			if b == nil {
+				b = &Expr{K: "shift", Left: false, A: a, Sh: 1, T: v.t}
+			}
+			c = &Expr{K: "bin", X: op, T: tyBool, A: a, B: b}
+		}
+		if !avoid[c.Src()] {
+			avoid[c.Src()] = true
+			return c
+		}
+	}
+	return g.cmp(2)
+}
+
+// stmtTwinIf: an if/else whose two branches each contain an else-less inner
+// `if` assigning the SAME variable(s) the SAME value (a constant or another
+// variable) under DIFFERENT computed conditions:
+//
+//	if C0 { [other assignments]; if C1 { r = V } } else { [other assignments]; if C2 { r = V } }
+//
+// Both branches leave r bound to a pending select with identical true/false
+// values and different conditions; the merge must still build the outer phi
+// (ssa.Bindings.Merge / Select.Equal).  Variants: one level deeper (the inner
+// `if` wrapped in another `if`), several variables, early return after the
+// assignment, other variables assigned in the two branches.
+func (g *gen) stmtTwinIf(depth int, results []*Ty) []*Stmt {
+	var cand []gvar
+	for _, v := range g.vars {
+		if v.assignable && !v.loop && v.t.IsScalar() && !g.frozen[v.name] {
+			cand = append(cand, v)
+		}
+	}
+	if len(cand) == 0 {
+		return nil
+	}
+	// prefer numeric targets (observable through every result type)
+	pickVar := func() gvar {
+		for try := 0; try < 4; try++ {
+			v := cand[g.r.Intn(len(cand))]
+			if v.t.IsNum() {
+				return v
+			}
+		}
+		return cand[g.r.Intn(len(cand))]
+	}
+	targets := []gvar{pickVar()}
+	if len(cand) > 1 && g.pct(30) {
+		w := pickVar()
+		if w.name != targets[0].name {
+			targets = append(targets, w)
+			g.tag("twin_if_two_variables")
+		}
+	}
+	frozenSave := g.frozen
+	g.frozen = map[string]bool{}
+	for k := range frozenSave {
+		g.frozen[k] = true
+	}
+	defer func() { g.frozen = frozenSave }()
+	// the common values
+	var values []*Expr
+	for _, tv := range targets {
+		g.frozen[tv.name] = true
+	}
+	for _, tv := range targets {
+		var val *Expr
+		if g.pct(40) {
+			var same []gvar
+			for _, w := range g.vars {
+				if !w.loop && w.t.Eq(tv.t) && !g.frozen[w.name] {
+					same = append(same, w)
+				}
+			}
+			if len(same) > 0 {
+				w := same[g.r.Intn(len(same))]
+				val = &Expr{K: "var", X: w.name, T: w.t}
+				g.frozen[w.name] = true
+				g.tag("twin_if_value_variable")
+			}
+		}
+		if val == nil {
+			val = g.lit(tv.t, "", false)
+			if val == nil {
+				return nil
+			}
+			val.Typed = false
+			g.tag("twin_if_value_constant")
+		}
+		values = append(values, val)
+	}
+	avoid := map[string]bool{}
+	c0 := g.simpleCond(avoid)
+	withReturn := g.loops == 0 && g.pct(15)
+	inner := func() []*Stmt {
+		c := g.simpleCond(avoid)
+		var body []*Stmt
+		for i, tv := range targets {
+			body = append(body, &Stmt{K: "assign", LVs: []*LVal{{X: tv.name, T: tv.t}}, E: values[i]})
+		}
+		if withReturn {
+			save := len(g.vars)
+			body = append(body, g.stmtReturn(results)...)
+			g.vars = g.vars[:save]
+		}
+		st := &Stmt{K: "if", E: c, Then: body}
+		if depth > 1 && g.pct(30) {
+			g.tag("twin_if_deeper")
+			st = &Stmt{K: "if", E: g.simpleCond(avoid), Then: []*Stmt{st}}
+		}
+		return []*Stmt{st}
+	}
+	branch := func() []*Stmt {
+		save := len(g.vars)
+		g.inBlock++
+		var out []*Stmt
+		// other variables assigned in this branch only
+		n := g.r.Intn(3)
+		for i := 0; i < n; i++ {
+			var s []*Stmt
+			if g.pct(75) {
+				s = g.stmtAssign()
+			} else {
+				s = g.stmtDecl()
+			}
+			if s != nil {
+				g.tag("twin_if_mixed_assign")
+				out = append(out, s...)
+			}
+		}
+		in := inner()
+		if g.pct(35) && len(out) > 0 {
+			out = append(in, out...) // the inner if first
+		} else {
+			out = append(out, in...)
+		}
+		g.inBlock--
+		g.vars = g.vars[:save]
+		return out
+	}
+	s := &Stmt{K: "if", E: c0}
+	s.Then = branch()
+	s.Else = branch()
+	g.tag("twin_if_same_value")
+	if withReturn {
+		g.tag("twin_if_early_return")
+	}
+	for _, tv := range targets {
+		g.mustMix = append(g.mustMix, tv.name)
+	}
+	return []*Stmt{s}
 }
 
 // stmtIf: the flag tells that both branches end in `return` (nothing may follow).
@@ -1367,12 +1548,30 @@ func (g *gen) mixLive(t *Ty, e *Expr) *Expr {
 	if len(cand) == 0 {
 		return e
 	}
+	// variables that a statement shape wants observed (twin ifs) come first
+	forced := 0
+	for k := len(g.mustMix) - 1; k >= 0 && forced < 3; k-- {
+		for i := forced; i < len(cand); i++ {
+			if cand[i].name == g.mustMix[k] {
+				cand[forced], cand[i] = cand[i], cand[forced]
+				forced++
+				break
+			}
+		}
+	}
 	n := 1 + g.r.Intn(3)
+	if n < forced {
+		n = forced
+	}
 	for k := 0; k < n && len(cand) > 0; k++ {
 		// bias to recent variables
 		idx := g.r.Intn(len(cand))
 		if g.pct(60) {
 			idx = g.r.Intn((len(cand) + 1) / 2)
+		}
+		if forced > 0 {
+			idx = 0
+			forced--
 		}
 		v := cand[idx]
 		cand = append(cand[:idx], cand[idx+1:]...)
@@ -1408,11 +1607,15 @@ func (g *gen) stmts(n int, depth int, results []*Ty, inLoop bool) ([]*Stmt, bool
 	for i := 0; i < n; i++ {
 		var s []*Stmt
 		term := false
-		ws := []int{24, 28, 16, 9, 14}
+		ws := []int{24, 28, 16, 9, 14, 9}
 		if g.inBlock > 0 {
-			ws = []int{10, 50, 16, 9, 10} // inside blocks: mostly assignments to outer variables
+			ws = []int{10, 50, 16, 9, 10, 7} // inside blocks: mostly assignments to outer variables
 		}
 		switch g.pick(ws...) {
+		case 5:
+			if depth > 0 && g.iters <= 2 {
+				s = g.stmtTwinIf(depth, results)
+			}
 		case 0:
 			s = g.stmtDecl()
 		case 1:
@@ -1464,6 +1667,7 @@ func (g *gen) function(name string, index int, params []Param, results []*Ty, na
 	f := &Func{Name: name, Index: index, Params: params, Results: results}
 	g.f = f
 	g.vars = nil
+	g.mustMix = nil
 	g.constRet = g.pct(7)
 	g.nameCtr = 0
 	g.iters = 1
